@@ -423,7 +423,7 @@ def lock_stage(d, run, combos, catalogue=False):
         run.add_mc(cat, "MC_Locks (catalogue of critical sections transcribed from the code, 3 threads, fair read-write locks: no deadlock, discipline)")
         if cat["violated"]:
             run.violation("Locks.tla: the catalogue violates %s" % cat["violated"], replay_lines=[cat["out"][-6000:]])
-    obs = d.tlc_mc("MC_Locks.tla", "MC_Locks_observed.cfg", wd, workers=8, timeout=1800, env={"PROGRAMS": progs})
+    obs = d.tlc_mc("MC_Locks_obs.tla", "MC_Locks_observed.cfg", wd, workers=8, timeout=1800, env={"PROGRAMS": progs})
     run.add_mc(obs, "MC_Locks_observed (%d distinct critical-section programs recorded from the real code, composed under every interleaving: no deadlock, discipline)" % np)
     if obs["violated"]:
         run.violation("the critical sections recorded from the real code can deadlock / break the lock discipline: %s" % obs["violated"],
@@ -431,6 +431,14 @@ def lock_stage(d, run, combos, catalogue=False):
     w = d.tlc_mc("MC_Locks.tla", "MC_Locks_witness.cfg", wd, workers=2, timeout=600)
     if "<deadlock>" not in w["violated"]:
         raise d.ToolError("MC_Locks_witness: the expected deadlock (second read lock behind a waiting writer) was not found")
+    if catalogue or _thorough(run):
+        # the callers' side of the contract: a thread that keeps a ValueRef alive across a writing call can deadlock
+        for cfg in ("MC_Locks_guard.cfg", "MC_Locks_guard_same.cfg"):
+            g = d.tlc_mc("MC_Locks.tla", cfg, wd, workers=2, timeout=600)
+            if "<deadlock>" not in g["violated"]:
+                raise d.ToolError("%s: the expected deadlock of a caller that keeps its guard across a writing call was not found" % cfg)
+        run.notes["lock_caller_contract"] = ("MC_Locks_guard*.cfg deadlock, as expected: the catalogue is deadlock-free for callers that "
+                                             "drop a ValueRef / ValueRefMut before their next call on the cache")
     run.notes["lock_programs"] = np
     run.notes["lock_witness"] = "MC_Locks_witness.cfg deadlocks, as expected (get_ttl before fix D10)"
 
